@@ -80,6 +80,8 @@ pub enum Which {
     C12,
     /// bounds stage of C07: the spawning macros accept every Send + 'static value
     C07,
+    /// fragment stage of C14: operands handed in as `expr` fragments of a `macro_rules!` wrapper
+    C14,
 }
 
 /// closing mode of the forced wrapper (C02): 0 explicit `<<<`, 1 implicit at the end of a step, 2 implicit at the end of the branch
@@ -92,7 +94,7 @@ fn gen_prog(rng: &mut TestRng, i: usize, which: Which) -> ChainProg {
     let kind = macro_kind(mac);
     let real_ok = |c: Comb| matches!(c, Comb::Map | Comb::AndThen | Comb::Filter | Comb::Dot | Comb::Then | Comb::OrElse | Comb::MapErr | Comb::Collect | Comb::Chain | Comb::FilterMap | Comb::Enumerate | Comb::Flatten | Comb::Fold | Comb::TryFold | Comb::Zip | Comb::Unzip | Comb::Inspect);
     let forced_comb = match which {
-        Which::C01 | Which::C10 => Some(SPELLINGS[i % 22].1),
+        Which::C01 | Which::C10 | Which::C14 => Some(SPELLINGS[i % 22].1),
         Which::C02 => Some(WRAPPERS[(i / 3) % 10]),
         _ => None,
     };
@@ -114,8 +116,12 @@ fn gen_prog(rng: &mut TestRng, i: usize, which: Which) -> ChainProg {
     if shadow {
         nb = rng.random_range(2..5usize);
     }
+    // C01: every fifth round of the 22 spellings hands its initial values and expression operands in as
+    // `expr` fragments of a `macro_rules!` wrapper (no block captures there: a block inside a fragment is
+    // not a block operand)
+    let frag_c01 = which == Which::C01 && (i / 22) % 5 == 4;
     let (force, close_mode) = match which {
-        Which::C01 | Which::C10 => {
+        Which::C01 | Which::C10 | Which::C14 => {
             let (sp, c) = SPELLINGS[i % 22];
             (Some((c, sp == ">.", false)), 0)
         }
@@ -142,8 +148,12 @@ fn gen_prog(rng: &mut TestRng, i: usize, which: Which) -> ChainProg {
             caps: match which {
                 Which::C11 => 0.6,
                 Which::C10 => 0.45,
+                // (a block handed in as a fragment is not a block operand: no captures here)
+                Which::C14 => 0.0,
+                _ if frag_c01 => 0.0,
                 _ => 0.15,
             },
+            lookalikes: which == Which::C14 || frag_c01,
             ck: if which == Which::C10 { 0.5 } else { 0.0 },
             ns: if which == Which::C19 { 0.6 } else { 0.0 },
             sn: match which {
@@ -160,7 +170,7 @@ fn gen_prog(rng: &mut TestRng, i: usize, which: Which) -> ChainProg {
                 Which::C10 | Which::C11 => 0.25,
                 // wrappers are C02's subject: C01's chains are flat, so that a defect in the wrapper
                 // machinery is not reported against C01
-                Which::C01 => 0.0,
+                Which::C01 | Which::C14 => 0.0,
                 _ => 0.12,
             },
             shapes: true,
@@ -233,8 +243,11 @@ fn gen_prog(rng: &mut TestRng, i: usize, which: Which) -> ChainProg {
         }
         // sometimes the initial value is an expression that binds weaker than a method call: the
         // documented chain applies the first combinator to the whole value
-        if !(b == 0 && force.is_some()) && !borrowed && fam != Family::AsyncReal && rb(g.rng, if which == Which::C12 { 0.6 } else { 0.25 }) {
-            let (t, text) = match g.rng.random_range(0..5) {
+        if !(b == 0 && force.is_some()) && !borrowed && fam != Family::AsyncReal && rb(g.rng, if which == Which::C12 || which == Which::C14 || frag_c01 { 0.6 } else { 0.25 }) {
+            let (t, text) = match g.rng.random_range(0..if which == Which::C14 || frag_c01 { 8 } else { 5 }) {
+                // (C14 only: operator look-alikes at the top level of the value)
+                5 | 6 => (Ty::Bool, format!("inp::<i64>({}) <= inp::<i64>({})", b, b + 50)),
+                7 => (Ty::Bool, format!("(inp::<i64>({})..inp::<i64>({}) + 4).contains(&2) | inp::<bool>({})", b, b, b)),
                 0 => (Ty::I64, format!("inp::<i64>({}) + inp::<i64>({})", b, b + 50)),
                 1 => (Ty::I64, format!("-inp::<i64>({})", b)),
                 2 => (Ty::Bool, format!("!inp::<bool>({})", b)),
@@ -406,7 +419,7 @@ fn gen_prog(rng: &mut TestRng, i: usize, which: Which) -> ChainProg {
                 tup_ty = Ty::Tup(Box::new(tup_ty), Box::new(t.clone()));
                 tup_text = format!("({}, a{})", tup_text, i);
             }
-            let mut g = CG { rng, fam: Family::Sync, next: 0, base: 90_000, caps: 0.15, wrappers: 0.1, shapes: true, count_local: false, count_used: false, no_count: false, allow_deferred: false, spawn_async: true, depth: 0, force: None, forced_done: false, ck: 0.0, ns: 0.0, sn: 0.0, nest: 0.3, nest_depth: 0, nest_log: vec![], nest_pairs: vec![] };
+            let mut g = CG { rng, fam: Family::Sync, next: 0, base: 90_000, caps: 0.15, wrappers: 0.1, shapes: true, lookalikes: false, count_local: false, count_used: false, no_count: false, allow_deferred: false, spawn_async: true, depth: 0, force: None, forced_done: false, ck: 0.0, ns: 0.0, sn: 0.0, nest: 0.3, nest_depth: 0, nest_log: vec![], nest_pairs: vec![] };
             let try_res = branches.first().map(|b| matches!(b.fin, Ty::Res(_))).unwrap_or(false);
             let (hkind, out_ty): (&str, Ty) = if !kind.is_try {
                 ("then", g.any_ty(1))
@@ -462,7 +475,7 @@ fn gen_prog(rng: &mut TestRng, i: usize, which: Which) -> ChainProg {
     let options = if which == Which::C19 && kind.is_async && branches.len() >= 2 && rb(rng, 0.4) { format!("custom_joiner(jvrt::{}!) ", if kind.is_try { "jv_ptry" } else { "jv_pjoin" }) } else { String::new() };
     // C12: a third of the invocations come out of a `macro_rules!` wrapper that is given the names
     let mr_wrap = which == Which::C12 && rb(rng, 0.35);
-    ChainProg { fam, mac: mac.to_string(), branches, nestings, handler, options, nest_pairs, mr_wrap }
+    ChainProg { fam, mac: mac.to_string(), branches, nestings, handler, options, nest_pairs, mr_wrap, frag: if which == Which::C14 || frag_c01 { 1 } else { 0 } }
 }
 
 fn strategy(i: usize, which: Which) -> impl Strategy<Value = ChainProg> {
@@ -496,20 +509,46 @@ fn hoist_ref(ops: &mut Vec<COp>, defs: &mut Vec<String>, counter: &mut usize) {
 /// the macro side of a program as `fn case_<idx>_<suffix>() -> String`
 fn mac_fn(p: &ChainProg, idx: usize, suffix: &str) -> String {
     let kind = macro_kind(&p.mac);
-    let wrap = p.mr_wrap && p.branches.iter().any(|b| b.let_name.is_some());
+    let wrap = (p.mr_wrap && p.branches.iter().any(|b| b.let_name.is_some())) || p.frag == 1;
     let mut passed: Vec<String> = Vec::new();
+    let mut params: Vec<String> = Vec::new();
+    let mut nfrag = 0usize;
     let mut body: Vec<String> = p
         .branches
         .iter()
         .enumerate()
-        .map(|(bi, b)| match (&b.let_name, wrap) {
-            (Some((n, m)), true) => {
-                let mut q = b.clone();
+        .map(|(bi, b)| {
+            let mut q = b.clone();
+            if let (Some((n, m)), true) = (&b.let_name, wrap) {
                 q.let_name = Some((format!("$p{}", bi), *m));
+                params.push(format!("$p{}:ident", bi));
                 passed.push(n.clone());
-                render_branch_macro(&q)
             }
-            _ => render_branch_macro(b),
+            if p.frag != 0 {
+                // initial value and expression operands: as fragments, or parenthesised
+                let mut texts: Vec<&mut String> = vec![&mut q.init_text];
+                for op in q.ops.iter_mut() {
+                    if matches!(op.comb, Comb::Collect | Comb::Unzip | Comb::Dot) || op.inner.is_some() {
+                        continue;
+                    }
+                    for o in op.operands.iter_mut() {
+                        if !o.starts_with('@') {
+                            texts.push(o);
+                        }
+                    }
+                }
+                for t in texts {
+                    if p.frag == 1 {
+                        params.push(format!("$e{}:expr", nfrag));
+                        passed.push(t.clone());
+                        *t = format!("$e{}", nfrag);
+                        nfrag += 1;
+                    } else {
+                        *t = format!("({})", t);
+                    }
+                }
+            }
+            render_branch_macro(&q)
         })
         .collect();
     if let Some((k, text)) = &p.handler {
@@ -524,7 +563,6 @@ fn mac_fn(p: &ChainProg, idx: usize, suffix: &str) -> String {
     }
     let invocation = format!("::join::{}! {{\n            {}{}\n        }}", p.mac, p.options, body.join(",\n            "));
     let invocation = if wrap {
-        let params: Vec<String> = p.branches.iter().enumerate().filter(|(_, b)| b.let_name.is_some()).map(|(bi, _)| format!("$p{}:ident", bi)).collect();
         mac.push_str(&format!("    macro_rules! __jw {{ ({}) => {{ {} }} }}\n", params.join(", "), invocation));
         format!("__jw!({})", passed.join(", "))
     } else {
@@ -659,6 +697,12 @@ fn control_text(p: &ChainProg, idx: usize) -> Option<String> {
                 }
             }
             Some(t)
+        }
+        // C14: the same texts parenthesised in a direct invocation
+        Which::C14 => {
+            let mut q = p.clone();
+            q.frag = 2;
+            Some(mac_fn(&q, idx, "ctl"))
         }
         // C11: captures unwrapped
         Which::C11 => {
@@ -933,6 +977,7 @@ pub fn run(id: &str, tier: &str, seed: u64) -> i32 {
         "C17" => Which::C17,
         "C12" => Which::C12,
         "C07" => Which::C07,
+        "C14" => Which::C14,
         _ => Which::C01,
     };
     WHICH.with(|w| w.set(which));
@@ -946,7 +991,8 @@ pub fn run(id: &str, tier: &str, seed: u64) -> i32 {
     };
     let mut ev = Evidence { property: id.to_string(), tier: tier.to_string(), seed, level: "exploration".into(), ..Default::default() };
     ev.rule = match which {
-        Which::C01 => "programs: typed chains (random walk over i64 / usize / bool / () / Option / Result<_, i64> / Vec / tuples / iterators, nesting <= 3), 1-3 independent chains per invocation, length 1-8 plus closing; program i is forced to contain operator spelling i mod 22 and uses macro name i mod 12 (async macros: half sync chains closed with `-> ready`, half chains over real futures and streams - FutureExt / TryFutureExt / StreamExt / TryStreamExt methods incl. `^^>` of futures of futures and streams of streams, `->` receiving the future itself, `~` where a step ends in a future; `??` meaning `.inspect`); operands fully typed, in varied shapes (call returning a closure, typed closure, closure with return type, parenthesised, macro call, block capture), `~` at random positions in the non-try sync macros; inputs: 8 boundary seeds + proptest-free hash-derived seeds building the initial values (None / Err / empty and non-empty vectors included). Oracle: differential against the documented method chain with the same operand text compiled in the same binary - Debug of the result, ordered callback-invocation trace (per branch when branches run on threads), multiset of all events; the macro side not compiling while the reference side does is a violation, the reverse is a generator bug (exit 2). Non-trivial = >= 2 operators and >= 1 callback invoked on that input",
+        Which::C01 => "programs: typed chains (random walk over i64 / usize / bool / () / Option / Result<_, i64> / Vec / tuples / iterators, nesting <= 3), 1-3 independent chains per invocation, length 1-8 plus closing; program i is forced to contain operator spelling i mod 22 and uses macro name i mod 12 (async macros: half sync chains closed with `-> ready`, half chains over real futures and streams - FutureExt / TryFutureExt / StreamExt / TryStreamExt methods incl. `^^>` of futures of futures and streams of streams, `->` receiving the future itself, `~` where a step ends in a future; `??` meaning `.inspect`); operands fully typed, in varied shapes (call returning a closure, typed closure, closure with return type, parenthesised, macro call, block capture, constructor whose evaluation is itself an event); in every fifth round of the 22 spellings the initial values and expression operands reach the macro as `expr` fragments of a `macro_rules!` wrapper; `~` at random positions in the non-try sync macros; inputs: 8 boundary seeds + proptest-free hash-derived seeds building the initial values (None / Err / empty and non-empty vectors included). Oracle: differential against the documented method chain with the same operand text compiled in the same binary - Debug of the result, ordered trace of callback invocations and operand evaluations (per branch when branches run on threads), multiset of all events; the macro side not compiling while the reference side does is a violation, the reverse is a generator bug (exit 2). Non-trivial = >= 2 operators and >= 1 callback invoked on that input",
+        Which::C14 => "fragment stage: flat typed chains under all 12 macro names (operator spelling i mod 22 forced) in which every initial value and every expression operand reaches the macro as an `expr` fragment of a `macro_rules!` wrapper around the invocation - one token tree whatever it contains; 60 % of the initial values bind weaker than a method call, a third of them with an operator look-alike at their top level (`a <= b`, `(a..b).contains(&2) | c`), and bool-returning callbacks are closures whose body is `x <= f(v)`; oracle: the documented method chain over the same texts (result, ordered trace, event multiset); control: the same texts parenthesised in a direct invocation. Non-trivial = >= 2 operators and >= 1 callback invoked",
         Which::C10 => "chain stage: typed chains as in C01 (all 22 operator spellings forced in turn, all 12 macro names) with block captures on 35 % of the operands and the clone- and drop-counting value type `Ck` in half of the scalar positions (fold / try_fold initial values, iterator items, Option / Result payloads); oracle against the documented chain compiled in the same binary: equal multiset of evaluation events (every operand expression and capture once, every callback as often as the std method calls it - per element for iterator callbacks), equal number of clones of counted values, no counted value alive after the result is dropped. Non-trivial = >= 2 callbacks invoked and >= 1 capture",
         Which::C07 => "bounds stage: typed chains with 2-4 branches under the eight thread- and task-spawning macro names whose values include `Sn` (holds a Cell: Send but not Sync) in half of the scalar positions; the reference side passes every branch through `require_thread(move || ..)` / `require_task(..)` (FnOnce / Future + Send + 'static - exactly what the README documents for spawning); oracle: the macro side compiles whenever the reference does, and both give the same result and per-branch callback traces. Non-trivial = >= 2 operators and >= 1 callback invoked",
         Which::C12 => "chain stage: typed chains under all 12 macro names in which 85 % of the branches carry `let name =` / `let mut name =` on the macro side only, 60 % of them with an initial value that binds weaker than a method call (`a + b`, `-x`, `!b`, `x as T`, `a == 2`); every fifth name is a raw identifier, and a third of the invocations are produced by a `macro_rules!` wrapper that receives the names as `ident` metavariables (the names then carry the caller's hygiene); metamorphic oracle: the named program equals the documented chain written without any name (result, callback traces, event multiset). Non-trivial = >= 2 operators and >= 1 callback invoked",
@@ -963,7 +1009,7 @@ pub fn run(id: &str, tier: &str, seed: u64) -> i32 {
         "futures and streams in the async chains are immediately ready (ready(), stream::iter): pending points are the business of C03 / C09".into(),
     ];
     let known = evid::Known::load();
-    let mut runner = new_runner(seed, match which { Which::C01 => 0xc01, Which::C02 => 0xc02, Which::C10 => 0xc10, Which::C11 => 0xc11, Which::C19 => 0xc19, Which::C17 => 0xc17, Which::C12 => 0xc12, Which::C07 => 0xc07 }, 1);
+    let mut runner = new_runner(seed, match which { Which::C01 => 0xc01, Which::C02 => 0xc02, Which::C10 => 0xc10, Which::C11 => 0xc11, Which::C19 => 0xc19, Which::C17 => 0xc17, Which::C12 => 0xc12, Which::C07 => 0xc07, Which::C14 => 0xc14 }, 1);
     let mut progs: Vec<ChainProg> = Vec::new();
     let mut seen = HashSet::new();
     for i in 0..count {
@@ -980,6 +1026,10 @@ pub fn run(id: &str, tier: &str, seed: u64) -> i32 {
             tally(&b.ops, &mut prev, &mut ev.classes, 0);
         }
         *ev.classes.entry(format!("macro {}", p.mac)).or_default() += 1;
+        if p.frag == 1 {
+            let t: String = p.branches.iter().map(|b| format!("{} {}", b.init_text, render_branch_macro(b))).collect();
+            *ev.classes.entry(format!("operands as expr fragments{}", if t.contains(" <= ") { ", with a top-level operator look-alike" } else { "" })).or_default() += 1;
+        }
         if p.branches.iter().any(|b| render_branch_macro(b).contains("__cnt += 1")) {
             *ev.classes.entry("a callback inside a wrapper body counts in a local of the caller".into()).or_default() += 1;
         }
